@@ -86,6 +86,11 @@ def set_term_ax(I, sq):
     t = sq.set_term()
     if sq.units() is not None:
         return t
+    leaves = possible_lengths(I, sq.n)
+    if leaves and max(leaves) <= 8:
+        # length is one of a few numerals: membership by cases, no quantifier
+        k_ = z3.Const("k!sm", V)
+        return z3.Lambda([k_], z3.Or([z3.And(sq.n > i_, sq.at(i_) == k_) for i_ in range(max(leaves))] or [z3.BoolVal(False)]))
     st = I.st
     key = ("setofarr", sq.arr.get_id(), sq.n.get_id())
     if key in st.gmemo:
@@ -469,36 +474,40 @@ def state_has_q(p):
     return has_quantifier(p)
 
 
-def fix_small_length(I, sq):
-    """if the length is an if-then-else over a few numerals, fork on its value and return the elements"""
+def possible_lengths(I, n):
+    """the few numerals a length term can take (syntactically, else by asking the solver); None if unbounded/unknown"""
     leaves = set()
+    if _ite_leaves(n, leaves):
+        return leaves
+    if not _mentions_ite(n):
+        return None
+    leaves = set()
+    st = I.st
+    for _ in range(7):
+        s_ = z3.Solver()
+        s_.set("timeout", 2000)
+        for p_ in st.pc:
+            if not state_has_q(p_):
+                s_.add(p_)
+        for kv in leaves:
+            s_.add(n != kv)
+        r_ = s_.check()
+        if r_ == z3.unsat:
+            return leaves
+        if r_ != z3.sat:
+            return None
+        v_ = s_.model().eval(n, model_completion=True)
+        if not z3.is_int_value(v_):
+            return None
+        leaves.add(v_.as_long())
+    return None
+
+
+def fix_small_length(I, sq):
+    """if the length is one of a few numerals, fork on its value and return the elements"""
     if sq.units() is not None:
         return sq.units()
-    if not _ite_leaves(sq.n, leaves):
-        # ask the solver which lengths are possible (only worthwhile for terms built by the code itself)
-        if not _mentions_ite(sq.n):
-            return None
-        leaves = set()
-        st = I.st
-        for _ in range(7):
-            s_ = z3.Solver()
-            s_.set("timeout", 2000)
-            for p_ in st.pc:
-                if not state_has_q(p_):
-                    s_.add(p_)
-            for kv in leaves:
-                s_.add(sq.n != kv)
-            r_ = s_.check()
-            if r_ == z3.unsat:
-                break
-            if r_ != z3.sat:
-                return None
-            v_ = s_.model().eval(sq.n, model_completion=True)
-            if not z3.is_int_value(v_):
-                return None
-            leaves.add(v_.as_long())
-        else:
-            return None
+    leaves = possible_lengths(I, sq.n)
     if not leaves or len(leaves) > 6 or max(leaves) > 32:
         return None
     for k in sorted(leaves):
@@ -722,6 +731,15 @@ def comprehension(I, e, env, kind):
         raise OutsideSubset("async comprehension")
     inner = Env(env.module, env, env.func)
     results = []
+    # module-level constants (set/dict literals) are allocated on first use: force that before the body is
+    # evaluated under the "no heap effect" discipline
+    for n_ in ast.walk(e):
+        if isinstance(n_, ast.Name) and isinstance(n_.ctx, ast.Load) and not env.lookup(n_.id)[1]:
+            if n_.id in env.module.assigns:
+                try:
+                    I.resolve_global(env.module, n_.id)
+                except OutsideSubset:
+                    pass
 
     def emit():
         if kind == "dict":
@@ -904,6 +922,9 @@ def _symbolic_comp(I, e, env, inner, kind, it):
                 inner.vars[g.target.id] = xb
 
             def body():
+                if items_of is not None:
+                    st.dict_read(items_of, xb)
+                    st.wf_read(inner.vars[g.target.elts[1].id])
                 c = z3.BoolVal(True)
                 for cnd in g.ifs:
                     c = z3.And(c, I.truthy(I.ev(cnd, inner)))
